@@ -197,7 +197,7 @@ class Commander():
         velocity [vx, vy, vz] are in m/s
         acceleration [ax, ay, az] are in m/s^2
         orientation [qx, qy, qz, qw] are the quaternion components of the orientation
-        rollrate, pitchrate, yawrate are in degrees/s
+        rollrate, pitchrate, yawrate are in radians/s (sent in milliradians/s, at most +-32.767 rad/s)
         """
         def vector_to_mm_16bit(vec):
             return int(vec[0] * 1000), int(vec[1] * 1000), int(vec[2] * 1000)
